@@ -172,11 +172,7 @@ impl PScenario {
             kind: Kind::parse(v["fleet"].as_str()?)?,
             api: Api::parse(v["api"].as_str()?)?,
             max: v["max_attempts"].as_u64()? as usize,
-            garbage: match v["malformed"].as_str()? {
-                "bad-spec" => super::node::Garbage::BadSpec,
-                "bad-length" => super::node::Garbage::BadLength,
-                _ => return None,
-            },
+            garbage: super::node::Garbage::parse(v["malformed"].as_str()?)?,
             prefix: prefix_index(v["prefix"].as_str()?)?,
             recover: match &v["recover"] {
                 Value::Null => None,
